@@ -541,10 +541,15 @@ Array<int> String::chars() const
 
 void String::assign(const char* b, int n)
 {
-	resize(n, false);
+	const char* s0 = str();
+	int off = (b >= s0 && b <= s0 + _len) ? int(b - s0) : -1; // b may be a piece of this string
+	resize(n, off >= 0, false);
 	char* s = str();
-	memcpy(s, b, _len);
-	s[_len] = '\0';
+	if (off >= 0)
+		b = s + off;
+	memmove(s, b, n);
+	s[n] = '\0';
+	_len = n;
 }
 
 String String::concat(const char* b, int n) const
